@@ -249,7 +249,7 @@ func c02CaseW(c *kit.Case, withRejected, bigGaps, widths bool) {
 		if c.Index%8 == 6 {
 			// an object stream with a number above 255 in a file of a few hundred bytes
 			cfg.PadBytes, cfg.WideObjStm = 0, false
-			cfg.ManyUnwritten = kit.Pick(c.Rng, []int{254, 300, 3000}) // (not more: D18)
+			cfg.ManyUnwritten = kit.Pick(c.Rng, []int{254, 300, 3000, 66000, 70000})
 			cfg.TinyObjStm = true
 			cfg.NoObjStm = false
 			cfg.MaxOps = c.Rng.Intn(3)
